@@ -128,6 +128,36 @@ class ExprMixin:
             out[kv] = self.eval(v, st)
         return out
 
+    def ev_DictComp(self, node, st, want):
+        """{n: <constant collection> for n in tree.traverse()}: a map defined on exactly the nodes of the subtree."""
+        if len(node.generators) != 1 or node.generators[0].ifs or not isinstance(node.generators[0].target, ast.Name):
+            raise Unsupported("dict comprehension shape")
+        if want is None or want.kind != "map":
+            raise Unsupported("dict comprehension needs a Map[...] typed target")
+        itv = self.eval(node.generators[0].iter, st)
+        if not (isinstance(itv, tuple) and itv and itv[0] == "#traverse"):
+            raise Unsupported("dict comprehension over other than a tree traversal")
+        if ast.unparse(node.key) != node.generators[0].target.id:
+            raise Unsupported("dict comprehension key must be the loop variable")
+        root = itv[1]
+        ks = self.tenv.sort(want.args[0])
+        x = smt.Var(smt.fresh_name("n"), ks)
+        sub = st.fork()
+        sub.env[node.generators[0].target.id] = SV(x, want.args[0])
+        saved = self.spec_mode
+        self.spec_mode = True
+        try:
+            val = self.eval(node.value, sub, want.args[1])
+        finally:
+            self.spec_mode = saved
+        if isinstance(val, tuple) and val and val[0] == "#emptyset":
+            val = self.set_of([], want.args[1])
+        r = self.fresh("dictcomp", want, st)
+        anc = self.ctx.app("anc", self.ops.term(root), x)
+        st.assume(smt.Forall([(x.args[0], ks)], smt.Eq(smt.Select(self.ops.map_dom(r), x), anc)))
+        st.assume(smt.Forall([(x.args[0], ks)], smt.Implies(anc, smt.Eq(smt.Select(self.ops.map_val(r), x), self.ops.term(val, want.args[1])))))
+        return r
+
     def ev_Lambda(self, node, st, want):
         return Closure(node, st.env, "<lambda>")
 
@@ -452,6 +482,10 @@ class ExprMixin:
         if isinstance(node.slice, ast.Slice):
             return self.slice(base, node.slice, st)
         idx = self.eval(node.slice, st)
+        if not isinstance(node.slice, (ast.Name, ast.Constant)):
+            # a computed subscript (e.g. the result of a call) is evaluated once per statement: a store through the same
+            # subscript expression (x[f(y)].add(z)) must address the element that was read
+            self._idx_cache[id(node.slice)] = idx
         return self.index(base, idx, st)
 
     def index(self, base, idx, st):
@@ -500,7 +534,8 @@ class ExprMixin:
                 return SV(smt.Select(ops.arr_data(base), it), base.pt.args[0])
             if k == "map":
                 kt = ops.term(idx, base.pt.args[0])
-                self.safety(st, smt.Select(ops.map_dom(base), kt), "key present")
+                if base.pt.name != "default":
+                    self.safety(st, smt.Select(ops.map_dom(base), kt), "key present")
                 return SV(smt.Select(ops.map_val(base), kt), base.pt.args[1])
             if k == "tuple":
                 if isinstance(idx, int):
